@@ -21,7 +21,7 @@ def schema(k, sizes):
 
 
 SETTINGS = ['dataset_before', 'dataset_between', 'dataset_after', 'pervar', 'pervar_value', 'attr', 'dataset_then_nofill', 'none', 'fill_nofill_fill', 'nofill_fill_nofill']
-FOLLOW = ['none', 'partial', 'redef_add', 'fill_rec', 'redef_twice', 'indep_redef']
+FOLLOW = ['none', 'partial', 'redef_add', 'fill_rec', 'redef_twice', 'indep_redef', 'redef_fixed_gap', 'redef_fixed_ralign']
 
 
 def define(p, dims, vars_, setting):
@@ -75,12 +75,15 @@ def gen(fmts, nps, sizes_list, settings, follows, ks):
         if fmt != 5: pass
         p = Prog('F-f%d-np%d-s%dx%d-%s-%s-k%d' % (fmt, np, sizes[0], sizes[1], setting, fol, k), np, fmt)
         define(p, dims, vars_, setting)
-        p.do(dict(op='enddef'))
+        # *_gap / *_ralign: free space in front of the record section, so that a later added fixed-size variable fits without moving anything
+        if fol == 'redef_fixed_gap': p.do(dict(op='_enddef', h_minfree=256, v_align=4, v_minfree=600, r_align=4))
+        elif fol == 'redef_fixed_ralign': p.do(dict(op='_enddef', h_minfree=256, v_align=4, v_minfree=0, r_align=1024))
+        else: p.do(dict(op='enddef'))
         p.case.op('*', 'sweep', f=0, nomfp=1)
         p.read_all('after defining enddef'); p.checkpoint('defining enddef')
         nrec = 0
-        if fol in ('partial', 'redef_add', 'redef_twice', 'fill_rec'):
-            nrec = {'partial': 2, 'redef_add': 3, 'redef_twice': 1, 'fill_rec': 0}[fol]
+        if fol in ('partial', 'redef_add', 'redef_twice', 'fill_rec', 'redef_fixed_gap', 'redef_fixed_ralign'):
+            nrec = {'partial': 2, 'redef_add': 3, 'redef_twice': 1, 'fill_rec': 0, 'redef_fixed_gap': 2, 'redef_fixed_ralign': 2}[fol]
             partial_writes(p, nrec)
             p.read_all('after partial writes')
         if fol == 'fill_rec':
@@ -101,6 +104,15 @@ def gen(fmts, nps, sizes_list, settings, follows, ks):
                 o = dict(op='put', v=rv, start=[rank] + [0] * (len(sh) - 1), count=[1] + sh[1:], vals=[(rank * 5 + j) % 40 + 50 for j in range(inner)], coll=0, mem=memof(t))
                 rcs, st = p.m.apply(o); assert 0 in rcs; p.m = st
                 p.rc_lines.append((emit_std(p.case, rank, o, None), 0))
+        if fol in ('redef_fixed_gap', 'redef_fixed_ralign'):
+            # only fixed-size variables are added, small enough for the free space: neither the header extent nor the record section moves
+            for rep in range(2):
+                p.do(dict(op='redef'))
+                nv = len(p.m.vars); t1 = TYPES[(k + rep) % 6]
+                p.do(dict(op='def_var', name='gf%d' % rep, xtype=t1, dims=[2, 1]))
+                if not p.m.fillmode: p.do(dict(op='def_var_fill', v=nv, nofill=0, val=FILLV[t1], xtype=t1))
+                p.do(dict(op='enddef'))
+                p.read_all('after redef %d adding a fixed-size variable into free space' % (rep + 1)); p.checkpoint('enddef after gap redef %d' % (rep + 1))
         if fol in ('redef_add', 'redef_twice', 'indep_redef'):
             for rep in range(2 if fol == 'redef_twice' else 1):
                 p.do(dict(op='redef'))
@@ -144,7 +156,7 @@ def main(tier=None):
     if thorough:
         progs = gen((1, 2, 5), (1, 2, 3, 4), [(1, 3), (3, 5), (5, 7), (7, 1)], SETTINGS, FOLLOW, range(6))
     else:
-        progs = gen((1,), (1, 3), [(3, 5)], SETTINGS, FOLLOW, (0, 1, 4)) + gen((5,), (2, 4), [(7, 1), (5, 7)], SETTINGS[:6] + SETTINGS[8:], ['redef_add', 'fill_rec', 'indep_redef'], (2, 3))
+        progs = gen((1,), (1, 3), [(3, 5)], SETTINGS, FOLLOW, (0, 1, 4)) + gen((5,), (2, 4), [(7, 1), (5, 7)], SETTINGS[:6] + SETTINGS[8:], ['redef_add', 'fill_rec', 'indep_redef', 'redef_fixed_gap'], (2, 3))
     progs += gen_rules()
     results = runner.run_cases(b['vx'], [p.case for p in progs], batch=40)
     for p, r in zip(progs, results):
@@ -158,7 +170,7 @@ def main(tier=None):
     ck.cov['distinct_nontrivial'] = len(ck.outcomes)
     ck.cov['rule'] = ('schemas of 3-4 variables (fixed/record, 6 external types, element counts 1,3,5,7 so that the per-process shares are uneven) x fill setting {set_fill before/between/after the definitions, def_var_fill with and '
                       'without value on a subset, _FillValue attribute put directly, dataset fill with one explicit no_fill variable, none, set_fill repeated with the same mode after per-variable changes (fill / no-fill / fill and the reverse)} x np 1-4 x follow-up {none, partial writes, redefinition adding a fixed and a record '
-                      'variable with 1-3 records present (once/twice), fill_var_rec + writes into filled records, independent-mode writes of a different number of records per process followed by a redefinition entered directly from independent mode}; every variable is read back on every rank after each step and the decoded file is compared; distinct_nontrivial = distinct read-back vectors')
+                      'variable with 1-3 records present (once/twice), fill_var_rec + writes into filled records, independent-mode writes of a different number of records per process followed by a redefinition entered directly from independent mode, fixed-size fill variables added into free space left by v_minfree / record alignment}; every variable is read back on every rank after each step and the decoded file is compared; distinct_nontrivial = distinct read-back vectors')
     ck.sample(progs[0].case.text()[:1500]); ck.sample(progs[len(progs) // 2].case.text()[:1800])
     ck.assumptions += ['records created implicitly by writing a higher record are undefined content and never compared']
     runner.cleanup()
